@@ -142,3 +142,14 @@ Proof.
   unfold nthZ. destruct (Z.ltb_spec i 0); [discriminate|]. intros F E.
   rewrite Forall_forall in F. apply F. eapply nth_error_In. exact E.
 Qed.
+
+Lemma u64_add_r x y : u64 (x + u64 y) = u64 (x + y).
+Proof. unfold u64. apply Zplus_mod_idemp_r. Qed.
+Lemma u64_add_l x y : u64 (u64 x + y) = u64 (x + y).
+Proof. unfold u64. apply Zplus_mod_idemp_l. Qed.
+Lemma i64_add_l x y : i64 (i64 x + y) = i64 (x + y).
+Proof.
+  unfold i64 at 1 3. f_equal. destruct (i64_eq_mod x) as [k ->].
+  replace (x + k * 2 ^ 64 + y + 2 ^ 63) with (x + y + 2 ^ 63 + k * 2 ^ 64) by lia.
+  apply Z_mod_plus_full.
+Qed.
